@@ -4,12 +4,6 @@ import GitSizer.Proofs.GraphRun5
 namespace GitSizer.Graph
 open GitSizer GitSizer.Spec Gen
 
-/-- declared size of an object -/
-def Repo.sizeOf (r : Repo) (i : Nat) : Nat :=
-  match r.obj i with
-  | some (.blob s) | some (.tree s _) | some (.commit s _ _) | some (.tag s _ _) => s
-  | none => 0
-
 theorem objSize32_eq (r : Repo) (i : Nat) (h : Repo.sizeOf r i < 2 ^ 64) : (objSize32 r i).toNat = clamp c32 (Repo.sizeOf r i) := by
   unfold objSize32 Repo.sizeOf at *
   cases ho : r.obj i with
